@@ -4,6 +4,7 @@ import (
 	"encoding/json"
 	"fmt"
 	"os"
+	"os/exec"
 	"path/filepath"
 	"runtime/pprof"
 	"sort"
@@ -43,6 +44,8 @@ func main() {
 		os.Exit(runReplay(os.Args[2]))
 	case "run":
 		os.Exit(runDev(os.Args[2:]))
+	case "oraclefuzz":
+		os.Exit(runOracleFuzz(os.Args[2:]))
 	default:
 		usage()
 	}
@@ -164,4 +167,103 @@ func runDev(args []string) int {
 		fmt.Printf("SAMPLE trace=%v obs=%v model=%s\n", s.Trace, s.Observes, compactModel(s.Model))
 	}
 	return 0
+}
+
+// runOracleFuzz: symgo oraclefuzz <property> <harness> <n> [k=v ...]
+// Runs a harness natively with random inputs; with TARGET=1 the harness drives the reference
+// implementation (the real os package), which validates the oracle model itself.
+func runOracleFuzz(args []string) int {
+	if len(args) < 3 {
+		usage()
+	}
+	prop, hname := args[0], args[1]
+	var n int
+	fmt.Sscan(args[2], &n)
+	root, repo := verifRoot(), repoRoot()
+	var spec Spec
+	b, err := os.ReadFile(filepath.Join(root, "harness", prop, "spec.json"))
+	if err != nil {
+		fmt.Println(err)
+		return 2
+	}
+	if err := json.Unmarshal(b, &spec); err != nil {
+		fmt.Println(err)
+		return 2
+	}
+	var h *HarnessSpec
+	for i := range spec.Harnesses {
+		if spec.Harnesses[i].Name == hname {
+			h = &spec.Harnesses[i]
+		}
+	}
+	if h == nil {
+		fmt.Println("no such harness")
+		return 2
+	}
+	tier := "quick"
+	params := paramsFor(h, tier)
+	for _, a := range args[3:] {
+		if i := strings.Index(a, "="); i > 0 {
+			var v int64
+			fmt.Sscan(a[i+1:], &v)
+			params[a[:i]] = v
+		}
+	}
+	po := &pkgOverlay{Dir: h.Pkg}
+	for _, f := range h.Files {
+		po.Files = append(po.Files, filepath.Join(root, f))
+	}
+	for i := range spec.Harnesses {
+		if spec.Harnesses[i].Pkg == h.Pkg && sameFiles(spec.Harnesses[i].Files, h.Files) {
+			po.Entries = append(po.Entries, spec.Harnesses[i].Entry)
+		}
+	}
+	po.PkgName, _ = packageNameOf(po.Files[0])
+	workDir := filepath.Join(root, ".work", fmt.Sprintf("fuzz-%d", os.Getpid()))
+	defer os.RemoveAll(workDir)
+	nb := buildNative(repo, workDir, []*pkgOverlay{po})
+	for d, e := range nb.errs {
+		fmt.Printf("native build of %s failed: %s\n", d, e)
+		return 2
+	}
+	mp := filepath.Join(workDir, "params.json")
+	writeJSON(mp, modelFile{Model: map[string]uint64{}, Params: params})
+	cmd := exec.Command(nb.bins[h.Pkg], "-test.run", "^TestVerifFuzz$", "-test.count=1", "-test.timeout", "30m")
+	cmd.Dir = filepath.Join(repo, h.Pkg)
+	seed := os.Getenv("VERIF_SEED")
+	if seed == "" {
+		seed = "1"
+	}
+	cmd.Env = append(os.Environ(), "VERIF_MODEL="+mp, "VERIF_ENTRY="+h.Entry, "VERIF_FUZZ_N="+fmt.Sprint(n), "VERIF_SEED="+seed)
+	out, _ := cmd.CombinedOutput()
+	lines := strings.Split(string(out), "\n")
+	fails := 0
+	for _, l := range lines {
+		if strings.HasPrefix(l, "VERIF-FUZZ") {
+			fmt.Println(l)
+			if strings.Contains(l, "FAIL") || strings.Contains(l, "PANIC") {
+				fails++
+			}
+		}
+	}
+	if !strings.Contains(string(out), "VERIF-FUZZ: runs=") {
+		fmt.Println(string(out))
+		return 2
+	}
+	if fails > 0 {
+		return 1
+	}
+	return 0
+}
+
+func sameFiles(a, b []string) bool {
+	if len(a) != len(b) {
+		return false
+	}
+	for i := range a {
+		if a[i] != b[i] {
+			return false
+		}
+	}
+	return true
 }
